@@ -200,7 +200,7 @@ def jobs(tier, seed):
             for stacks in [(4, 6, 5), (3, 3, 7)] + ([(5, 5, 5), (6, 4, 8)] if th else []):
                 out.append(_j(f'holdem-like-3p-{mode}-{boards}b', C.custom(stacks, C.HOLDEM_LIKE, deck='STANDARD', hand_types=('HighCardAny',),
                                                                            antes=0, blinds=(1, 2), mode=mode, boards=boards, autos=SEMI),
-                              opts=o, dev_bound=6 if not th else None))
+                              opts=o, dev_bound=5 if not th else None))
             if th:
                 out.append(_j(f'NT-3p-{mode}-{boards}b', C.nt((4, 6, 5), mode=mode, boards=boards, autos=SEMI), opts=o, dev_bound=6))
             out.append(_j(f'PO-2p-{mode}-{boards}b', C.nt((4, 5), mode=mode, boards=boards, autos=SEMI, game='PotLimitOmahaHoldem'),
@@ -221,7 +221,7 @@ def jobs(tier, seed):
                           opts={'raises': 'minmax', 'runouts': (None, 2, 3) if boards == 1 else (None, 2), 'show': (None,)}, pots=True))
     for j in out:
         j.setdefault('state_cap', 400000 if th else 60000)
-        j.setdefault('time_cap', 700 if th else 70)
+        j.setdefault('time_cap', 1800 if th else 400)
     return out
 
 
